@@ -79,7 +79,7 @@ func Register(option *Option) error {
 	if option.ValidationRegex == "" && option.PossibleValues != nil {
 		values := make([]string, len(option.PossibleValues))
 		for idx, val := range option.PossibleValues {
-			values[idx] = fmt.Sprintf("%v", val.Value)
+			values[idx] = regexp.QuoteMeta(fmt.Sprintf("%v", val.Value))
 		}
 		option.ValidationRegex = fmt.Sprintf("^(%s)$", strings.Join(values, "|"))
 	}
